@@ -279,7 +279,12 @@ pub fn drive(a: &Args) -> i32 {
         let long = long_every > 0 && seg % long_every == long_every - 1;
         // long segments use more keys: a lost record stays visible until its key is rewritten
         let nk: u64 = if long { 16 } else { rng.gen_range(1..=4) };
-        let nops: u64 = if long { rng.gen_range(2050..3100) } else { rng.gen_range(12..40) };
+        // long segments alternate between two schedules:
+        //   "ckpt"    : checkpoints in the middle of each file and (clock advanced) after every other rotation, restarts
+        //   "collide" : three rotations in a burst with no checkpoint and no restart in between (rotated-file names
+        //               carry the wall-clock second), observed at the rotations and by a clean restart at the end
+        let collide = long && (seg / long_every.max(1)) % 2 == 1;
+        let nops: u64 = if collide { rng.gen_range(3010..3080) } else if long { rng.gen_range(2050..3100) } else { rng.gen_range(12..40) };
         store_no += 1;
         let mut live = tmp.join(format!("live{store_no}"));
         let _ = std::fs::remove_dir_all(&live);
@@ -303,14 +308,16 @@ pub fn drive(a: &Args) -> i32 {
                 nrot_seen += 1;
                 post_rot = 1; // a rotation just happened: checkpoint (clock advanced), a few armed ops, clean restart
             }
-            let armed = if long { since_open >= 996 || post_rot > 0 || rng.gen_bool(0.004) } else { rng.gen_bool(0.6) };
+            let armed = if collide { since_open % 1000 >= 997 || since_open % 1000 <= 1 || i + 3 > nops }
+                        else if long { since_open >= 996 || post_rot > 0 || rng.gen_bool(0.004) } else { rng.gen_bool(0.6) };
             ctx.lock().expect("ctx").armed = armed;
             let kind = if long {
                 // long segments exist to force rotation: mostly writes; a checkpoint in the middle of each
                 // file and one right after each rotation (with the clock advanced in between, since
                 // snapshot and rotated-file names carry the wall-clock second), then a clean restart
                 let x = rng.gen_range(0..1000);
-                if post_rot == 1 && nrot_seen % 2 == 0 { post_rot = 2; clock_step = true; 92 }
+                if collide { post_rot = 0; if i == nops { 99 } else if x < 700 { 0 } else { 70 } }
+                else if post_rot == 1 && nrot_seen % 2 == 0 { post_rot = 2; clock_step = true; 92 }
                 else if post_rot == 1 { post_rot = 3; if x < 700 { 0 } else { 70 } } // every other rotation: no checkpoint, the rotated file stays
                 else if post_rot >= 2 && post_rot < 5 { post_rot += 1; if x < 700 { 0 } else { 70 } }
                 else if post_rot == 5 { post_rot = 0; 99 }
@@ -403,7 +410,9 @@ pub fn drive(a: &Args) -> i32 {
                         }
                         let r = reopen(&work, nk);
                         t.ev(merge(json!({"ev":"CrashImage","point":"trunc","cut":cut - start}), obs(&r)));
-                        if cont.is_none() && rng.gen_bool(0.03) {
+                        // a torn FIRST record of a file is a corner of its own: continue from it more often
+                        let first_record = fr.len() <= 1;
+                        if cont.is_none() && rng.gen_bool(if first_record { 0.25 } else { 0.03 }) {
                             let keep = tmp.join("cont");
                             copy_dir(img, &keep);
                             if let Ok(f) = std::fs::OpenOptions::new().write(true).open(keep.join("state.wal")) {
@@ -460,19 +469,41 @@ pub fn drive(a: &Args) -> i32 {
                     let work = tmp.join("dmg");
                     copy_dir(&img, &work);
                     let snaps = snapshots(&work);
-                    let pick_snap = !snaps.is_empty() && rng.gen_bool(0.2);
+                    let pick_snap = !snaps.is_empty() && rng.gen_bool(0.3);
                     let mut ev = json!({"ev":"Damaged"});
                     if pick_snap {
                         let s = snaps.last().expect("snap").clone();
                         let mut data = std::fs::read(&s).unwrap_or_default();
                         if data.len() < 8 { continue; }
                         let hdr = u32::from_le_bytes([data[0], data[1], data[2], data[3]]) as usize;
-                        let (class, pos) = if rng.gen_bool(0.5) && 4 + hdr < data.len() {
-                            ("snapbody", rng.gen_range(4 + hdr..data.len()))
-                        } else {
-                            ("snaphdr", rng.gen_range(0..(4 + hdr).min(data.len())))
-                        };
-                        data[pos] ^= 1 << rng.gen_range(0..8);
+                        let class = ["snapbody", "snaphdr", "snapappend", "snaptotal"][rng.gen_range(0..4)];
+                        match class {
+                            "snapbody" if 4 + hdr < data.len() => {
+                                let pos = rng.gen_range(4 + hdr..data.len());
+                                data[pos] ^= 1 << rng.gen_range(0..8);
+                            }
+                            "snapappend" => {
+                                for _ in 0..rng.gen_range(1..40) {
+                                    data.push(rng.r#gen());
+                                }
+                            }
+                            "snaptotal" if 4 + hdr <= data.len() => {
+                                // rewrite the (unauthenticated-by-position) size field of the header to a huge value
+                                if let Ok(mut h) = postcard::from_bytes::<saorsa_core::persistent_state::SnapshotHeader>(&data[4..4 + hdr]) {
+                                    h.total_size = [1u64 << 31, 1 << 27, u32::MAX as u64][rng.gen_range(0..3)];
+                                    if let Ok(hb) = postcard::to_stdvec(&h) {
+                                        let body = data[4 + hdr..].to_vec();
+                                        data = (hb.len() as u32).to_le_bytes().to_vec();
+                                        data.extend_from_slice(&hb);
+                                        data.extend_from_slice(&body);
+                                    }
+                                }
+                            }
+                            _ => {
+                                let pos = rng.gen_range(0..(4 + hdr).min(data.len()));
+                                data[pos] ^= 1 << rng.gen_range(0..8);
+                            }
+                        }
                         let _ = std::fs::write(&s, &data);
                         ev = merge(ev, json!({"dclass":class,"dfile":0,"drec":0,"files":[]}));
                     } else {
@@ -487,7 +518,10 @@ pub fn drive(a: &Args) -> i32 {
                         let ri = rng.gen_range(0..fr.len());
                         let (off, len, _, _) = fr[ri];
                         let mut data = std::fs::read(&target).unwrap_or_default();
-                        let class = ["payload", "payload", "len", "lenbig", "trunc", "truncb", "append", "dup", "transplant", "multi"][rng.gen_range(0..10)];
+                        let mut class = ["payload", "payload", "len", "lenbig", "trunc", "truncb", "append", "dup", "transplant", "multi", "lenmerge", "lenmerge"][rng.gen_range(0..12)];
+                        if class == "lenmerge" && ri + 1 >= fr.len() {
+                            class = "payload";
+                        }
                         match class {
                             "payload" => {
                                 let p = (off + 4 + rng.gen_range(0..len)) as usize;
@@ -503,6 +537,11 @@ pub fn drive(a: &Args) -> i32 {
                             "len" => {
                                 let p = (off + rng.gen_range(0..4)) as usize;
                                 data[p] ^= 1 << rng.gen_range(0..8);
+                            }
+                            "lenmerge" => {
+                                // the length prefix of record ri now spans exactly records ri and ri+1: framing behind it is intact
+                                let merged = (len + 4 + fr[ri + 1].1) as u32;
+                                data[off as usize..off as usize + 4].copy_from_slice(&merged.to_le_bytes());
                             }
                             "lenbig" => {
                                 let g: [u8; 4] = [[0xff, 0xff, 0xff, 0xff], [0xff, 0xff, 0xff, 0x7f], [0, 0, 0, 0x10]][rng.gen_range(0..3)];
@@ -534,6 +573,9 @@ pub fn drive(a: &Args) -> i32 {
                                               "files": if describe { json!(layout) } else { json!([]) }, "described": describe}));
                     }
                     let r = reopen(&work, nk);
+                    // recovering the same damaged directory a second time must not lose anything the first recovery kept
+                    let r2 = reopen(&work, nk);
+                    let ev = merge(ev, json!({"state2": r2.state, "ok2": r2.ok, "panic2": r2.panic}));
                     t.ev(merge(ev, obs(&r)));
                 }
                 let _ = std::fs::remove_dir_all(&img);
